@@ -276,6 +276,20 @@ func (p *Program) verifyFuncPass(con *Contract, prev *VC) (res *funcResult) {
 				result = Val{T: fn.Signature.Results(), Tup: merged}
 			}
 		}
+		// source-level variables as of the return(s): those on which all returns agree
+		merged := map[string]debugVar{}
+		for k, v := range rets[0].Debug {
+			same := true
+			for _, r := range rets[1:] {
+				if o, ok := r.Debug[k]; !ok || o.val.S != v.val.S || o.addr != v.addr {
+					same = false
+				}
+			}
+			if same {
+				merged[k] = v
+			}
+		}
+		fr.debugVars = merged
 		penv := fr.baseEnv()
 		for i, fv := range fn.FreeVars {
 			penv.vars[fv.Name()] = fr.freeVals[i]
@@ -288,7 +302,7 @@ func (p *Program) verifyFuncPass(con *Contract, prev *VC) (res *funcResult) {
 			c := vc.oblige("cover", con.FuncName+"/cover[normal return reachable]", gRet, "true", "")
 			c.Cover = true
 		}
-		for _, cl := range con.clauses("ensures") {
+		for _, cl := range append(con.clauses("ensures"), con.clauses("ensures_local")...) {
 			vc.oblige("post", fmt.Sprintf("%s/post[%s]", con.FuncName, clauseLabel(cl)), gRet, penv.evalBool(cl.Expr), fmt.Sprintf("%s:%d", cl.File, cl.Line))
 		}
 		for _, cl := range con.clauses("panics_iff") {
